@@ -1076,7 +1076,8 @@ class CompositeEnvelope:
                         os = s.envelope.polarization
                     elif isinstance(s, Polarization):
                         os = s.envelope.fock
-                    if os not in state_list:
+                    # Identity, not equality: two Focks in the same state compare equal
+                    if not any(os is x for x in state_list):
                         state_list.append(os)
 
         # If the state resides in the BaseState or Envelope measure there
